@@ -208,6 +208,15 @@ bool shape_matches(Arr const& shape) // the shape is in the domain of a conversi
     }
     return true;
 }
+// a second shape of the same pattern that differs from `shape` at every dynamic position (two-object operations)
+inline Arr other_shape(PInfo const& p, Arr const& shape)
+{
+    Arr a = shape;
+    for (std::size_t r = 0; r < p.rank; ++r) {
+        if (p.st[r] == dyn) { a[r] = (shape[r] + 1 + (LL)r) % 5; }
+    }
+    return a;
+}
 inline std::string show(Arr const& a, std::size_t R)
 {
     std::string s = "(";
